@@ -70,6 +70,9 @@ def corpus():
     # a parallel step declared through `processes`; quantities crossing the pipe
     base.append({'kind': 'shutdown', 'ends': 1, 'last_forced': True, 'kill': None, 'kill_at': 0,
                  'par_ts': 1, 'run': [3], 'legacy_step': True, 'units': True, 'override': True})
+    # a new process is generated over the parallel one while its update is in flight: the old worker is stopped
+    base.append({'kind': 'shutdown', 'ends': 1, 'last_forced': True, 'kill': 'replace', 'kill_at': 1,
+                 'par_ts': 3, 'run': [4]})
     # a compartment with several processes (a serial one first, two parallel ones, one of them nested) is deleted /
     # divided away: every worker is stopped
     base.append({'kind': 'shutdown', 'ends': 1, 'last_forced': True, 'kill': 'delete', 'kill_at': 2,
@@ -109,7 +112,7 @@ def generate(rng, n, tier):
                 continue
             out.append({'kind': 'shutdown', 'ends': rng.choice([0, 1, 1, 2]),
                         'last_forced': rng.random() < 0.5,
-                        'kill': rng.choice([None, 'delete', 'delete', 'divide']),
+                        'kill': rng.choice([None, 'delete', 'delete', 'divide', 'replace']),
                         'kill_at': rng.choice([1, 2, 3]), 'par_ts': rng.choice([1, 2, 3, 4, 5]),
                         'sleep': rng.choice([0.0, 0.0, 0.3]), 'killer_first': rng.random() < 0.5,
                         'bystander': rng.random() < 0.4, 'legacy_step': rng.random() < 0.3,
@@ -199,6 +202,8 @@ def _shutdown_run(case, obs):
             topology['killer2'] = {'agents': ('agents',)}
         eng = Engine(processes=processes, topology=topology, emitter={'type': 'null'},
                      display_info=False, progress_bar=False)
+        # the OS process of the first worker: whatever happens to its wrapper, it is told to stop and reaped
+        first_worker = getattr(eng.processes['agents']['cell']['par'], 'multiprocess', None)
         for i, iv in enumerate(case['run']):
             last = i == len(case['run']) - 1
             if last and not case['last_forced']:
@@ -219,6 +224,14 @@ def _shutdown_run(case, obs):
             obs['mass'] = [float(m.magnitude), str(m.units)]
         for _ in range(case['ends']):
             eng.end()
+        if first_worker is not None and case['kill'] in ('delete', 'replace') and sum(case['run']) >= case['kill_at'] \
+                and not obs.get('raised'):
+            gc.collect()
+            try:
+                first_worker.join(timeout=5.0)
+                obs['first_exit'] = first_worker.exitcode
+            except ValueError:
+                obs['first_exit'] = 0               # joined and closed by end()
         if case['ends']:
             # Engine.end() itself must have stopped and reaped every worker (not only the garbage collector, later)
             kids = [k for k in multiprocessing.active_children() if k.name != 'SyncManager']
@@ -301,6 +314,10 @@ def oracle(case, impl):
         elif o.get('alive_after_end'):
             fails.append(f'worker-left: {o["alive_after_end"]} worker OS process(es) still alive when Engine.end() '
                          f'returned')
+        if 'first_exit' in o and o['first_exit'] != 0:
+            fails.append(f'worker-left: the worker of the parallel process that was {case["kill"]}d at t={case["kill_at"]} '
+                         f'(timestep {case["par_ts"]}) was not stopped cleanly: exit code {o["first_exit"]} '
+                         f'(None = still running)')
         if case.get('units') and not o.get('raised') and case['last_forced'] \
                 and o.get('mass') != [2.0 * o['gt'], 'femtogram']:
             fails.append(f'transparent: a parallel and a serial process each add 1 fg per time unit; after '
